@@ -555,6 +555,46 @@ pub fn gen(ctx: &Ctx) -> Vec<String> {
                 push(&mut cases, format!("rpath lens={} k={k} -", l.join(",")));
             }
         }
+        // a static prefix (scope) consumed first, then dynamic steps: totals straddling
+        // 65535/65536 and captures ending just before / after absolute offset 65535
+        for &p in &[2usize, 3, 4, 5, 8, 100, 1000, 30000] {
+            for total in [65_533usize, 65_534, 65_535, 65_536, 65_537, 65_535 + p - 1, 65_535 + p, 65_535 + p + 1, 65_535 + 2 * p] {
+                // one segment filling the rest
+                if total > p + 1 {
+                    let l = total - p - 1;
+                    push(&mut cases, format!("rpath pre={p} lens={l} k=1 -"));
+                    // two segments: the first capture ends near the limit, a short one follows
+                    if l > 12 {
+                        push(&mut cases, format!("rpath pre={p} lens={},10 k=2 -", l - 11));
+                        push(&mut cases, format!("rpath pre={p} lens=10,{} k=2 -", l - 11));
+                    }
+                }
+            }
+            // two static prefixes
+            push(&mut cases, format!("rpath pre={p},{p} lens={} k=2 -", 65_536 - 2 * p.min(30000) - 1));
+            push(&mut cases, format!("rpath pre={p},7 lens={},3 k=3 -", 65_530usize.saturating_sub(p)));
+            push(&mut cases, format!("rpath pre={p} lens=5,6 k=2 -"));
+        }
+        for _ in 0..b(200) {
+            let np = rng.range(1, 2);
+            let pre: Vec<usize> = (0..np).map(|_| *rng.pick(&[2usize, 4, 5, 16, 300, 5000, 30000])).collect();
+            let psum: usize = pre.iter().sum();
+            let target = rng.range(65_500, 65_600 + psum.min(200));
+            let n = rng.range(1, 3);
+            let mut lens: Vec<usize> = Vec::new();
+            let mut used = psum;
+            for i in 0..n {
+                let l = if i + 1 == n { target.saturating_sub(used + 1).max(1) } else { rng.range(1, 40) };
+                used += l + 1;
+                lens.push(l);
+            }
+            if rng.chance(1, 2) {
+                lens.reverse();
+            }
+            let pl: Vec<String> = pre.iter().map(|x| x.to_string()).collect();
+            let ll: Vec<String> = lens.iter().map(|x| x.to_string()).collect();
+            push(&mut cases, format!("rpath pre={} lens={} k={} -", pl.join(","), ll.join(","), rng.range(1, 4)));
+        }
         for _ in 0..b(150) {
             let n = rng.range(1, 5);
             let l: Vec<String> = (0..n)
